@@ -58,7 +58,11 @@ func (f *Sxhash) Call(s *slip.Scope, args slip.List, depth int) (result slip.Obj
 func appendHashBytes(b []byte, obj slip.Object) []byte {
 	switch to := obj.(type) {
 	case slip.Real:
-		return strconv.AppendFloat(b, to.RealValue(), 'g', -1, 64)
+		f := to.RealValue()
+		if f == 0.0 {
+			f = 0.0 // -0.0 is equal to 0 and 0.0
+		}
+		return strconv.AppendFloat(b, f, 'g', -1, 64)
 	case slip.List:
 		b = append(b, '[')
 		for _, e := range to {
